@@ -74,6 +74,17 @@ class ScriptSock:
         raise AssertionError(ev)
 
 
+def _recv_into(self, buffer, nbytes=0, flags=0):
+    mv = memoryview(buffer).cast("B")
+    n = nbytes or len(mv)
+    data = self.recv(min(n, len(mv)), flags)
+    mv[:len(data)] = data
+    return len(data)
+
+
+ScriptSock.recv_into = _recv_into      # the same scripted answers, for code that receives into a buffer
+
+
 class SendSock:
     def __init__(self, script, blocking):
         self.script = list(script)
